@@ -151,6 +151,12 @@ func (p *C08) Gen(seed uint64, i int, tier string) *scen.Scenario {
 			if r.Chance(1, 2) {
 				op.Args = append(op.Args, scen.Pick(r, sharedRefs))
 			}
+			if r.Chance(1, 25) {
+				// a wide record (the property allows any number of attributes; 57+ pairs outgrow the pooled slice's initial size hint)
+				for n := r.Range(57, 90); n > 0; n-- {
+					op.Args = append(op.Args, scen.Arg{K: "key", S: g.key()}, scen.Arg{K: "i", I: g.nv()})
+				}
+			}
 			if op.Entry != name && r.Chance(1, 5) {
 				op.Ctx = &scen.CtxSpec{}
 			}
